@@ -1,6 +1,7 @@
 import FxVerif.Proofs.C04Acct
 import FxVerif.Proofs.C04EscStep
 import FxVerif.Proofs.C04Wd
+import FxVerif.Proofs.C04Claims
 import FxVerif.Gen.C04
 /-!
 # C04 — bridge solvency: holdings + in-flight = initial + deposits − executed withdrawals; operations move only what
@@ -481,5 +482,59 @@ example : LedgerOk { ledgerE with bal := fun a x => if a = .base 0 ∧ x = U 0 t
       | nil => rfl
       | cons b bs ih => simp only [sumL]; rw [ih (List.nodup_cons.mp hn).2]; simp [ha]
     simp [this]
+
+/-! ### claim layer: observed claims are parked and executed through `executeClaim`, possibly re-entrantly -/
+
+/-- translator tie: `ExecuteClaim` looks the pending claim up, DELETES it, then runs its handler (source order) -/
+theorem execute_claim_order_matches_code : FxVerif.Gen.C04.executeClaim_steps = execSteps := rfl
+
+/-- **the claim layer refines the base operations**: every successful operation of the claim layer — in particular an
+`executeClaim` with any nesting of re-entrant calls, swallowed failures included, and for ANY statement order of
+`ExecuteClaim` — is a finite sequence of successful base operations.  Hence every invariant of `step` (conservation,
+escrow, batch invariant, ledger bound) holds for all histories of the claim layer. -/
+theorem claims_refine_ops (cfg : Cfg) (steps : List XStep) (s s' : State2) (op : Op2)
+    (h : step2With cfg steps s op = .ok s') : Steps cfg s.base s'.base :=
+  step2With_steps cfg steps s s' op h
+
+/-- **conservation for histories with parked claims and re-entrant contracts**: deposits are counted when the observed
+event is executed (once, see `deposit_credited_once`) -/
+theorem conservation_claims (cfg : Cfg) (L : Ledger) (e0 : Nat → Nat → Nat) (ops : List Op2) (g : Nat) :
+    held (runOps2 cfg (init2 (initE L e0)) ops).base g + (inFlight (runOps2 cfg (init2 (initE L e0)) ops).base g : Int) =
+      held (initE L e0) g + ((runOps2 cfg (init2 (initE L e0)) ops).base.deposited g : Int)
+        - ((runOps2 cfg (init2 (initE L e0)) ops).base.withdrawn g : Int) := by
+  have hst := runOps2_steps cfg ops (init2 (initE L e0))
+  have h := Steps.inv (P := fun s => FxVerif.Proofs.C04.measure s g = FxVerif.Proofs.C04.measure (initE L e0) g)
+    (fun s s' op hs hp => by rw [step_measure cfg s s' op g hs]; exact hp) hst rfl
+  simp only [FxVerif.Proofs.C04.measure, held] at h ⊢
+  have h0 : inFlight (initE L e0) g = 0 := by simp [inFlight, initE, chainInFlight, poolValue]
+  have h1 : (initE L e0).deposited g = 0 := rfl
+  have h2 : (initE L e0).withdrawn g = 0 := rfl
+  rw [h0, h1, h2] at h
+  show (heldObs g).val (runOps2 cfg (init2 (initE L e0)) ops).base.L + _ = _
+  omega
+
+/-- **an observed deposit is credited at most once**: for every configuration, initial state and history of the claim
+layer (observations, executions by anybody, re-entrant contracts calling `executeClaim` for their own event, for other
+parked events, for unknown ones; failing and swallowed nested calls), for every chain, event nonce and token group: the
+total that handlers credited for that event never exceeds what the observed claim says, and is 0 while the event is
+still pending.  The proof uses that `ExecuteClaim` deletes the claim BEFORE running its handler
+(`execute_claim_order_matches_code`). -/
+theorem deposit_credited_once (cfg : Cfg) (s0 : State) (ops : List Op2) (c nonce g : Nat) :
+    creditedFor (runOps2 cfg (init2 s0) ops) c nonce g ≤ claimedFor (runOps2 cfg (init2 s0) ops) c nonce g ∧
+    (pendingOn (runOps2 cfg (init2 s0) ops) c nonce → creditedFor (runOps2 cfg (init2 s0) ops) c nonce g = 0) := by
+  have hi := runOps2_cred cfg ops (init2 s0) (init2_cred s0)
+  exact ⟨hi.le_claimed c nonce g, hi.pend_zero c nonce g⟩
+
+/-- … and the order matters: with "look up, handle, delete", a bridge call to a contract that re-enters
+`executeClaim` for its own event credits the claimed 5 three times (until the nesting bound); the source order credits
+it once -/
+theorem delete_after_handle_credits_twice :
+    let s := (match step2 cfgW (init2 (init ledgerW)) (.observe 0 7 (.call 4 [(1, 5)] (some (.reenter 0 7)))) with
+      | .ok s => s | .error _ => init2 (init ledgerW))
+    (match execWith cfgW [.lookup, .handle, .delete] 3 s 0 7, execWith cfgW execSteps 3 s 0 7 with
+     | .ok bad, .ok good =>
+       decide (creditedFor bad 0 7 1 = 15 ∧ claimedFor bad 0 7 1 = 5 ∧ bad.base.L.bal (.erc 1) (U 4) = 15 ∧
+         creditedFor good 0 7 1 = 5 ∧ good.base.L.bal (.erc 1) (U 4) = 5)
+     | _, _ => false) = true := by decide
 
 end FxVerif.Props.C04
